@@ -11,9 +11,44 @@
 #include "spec/tlv.h"
 
 int g_sp_res; size_t g_sp_len; unsigned char g_sp_byte; size_t g_tlv_k;
+int g_st_res; size_t g_st_len; unsigned char g_st_byte2;   /* same, for serializeTlv as a callee of KSI_TLV_writeBytes */
 
 #define TLV_WANTS_HDR(opt) (((opt) & KSI_TLV_OPT_NO_HEADER) == 0)
 #define TLV_BUF_OK(buf, buf_size) (((buf) == NULL && (buf_size) == 0) || __CPROVER_is_fresh(buf, buf_size))
+
+#ifndef TLV_NESTED_GHOST_ASSIGNS
+#define TLV_NESTED_GHOST_ASSIGNS
+#endif
+/* raw payload: copied right-aligned; the reported length is the stored length */
+static int serializeRaw(const KSI_TLV *tlv, unsigned char *buf, size_t buf_size, size_t *buf_len)
+__CPROVER_requires(__CPROVER_is_fresh(tlv, sizeof(*tlv)))
+#ifdef TLV_RAW_DATA
+__CPROVER_requires(tlv->datap_len <= TLV_RAW_DATA_MAX && __CPROVER_is_fresh(tlv->datap, tlv->datap_len))
+#endif
+__CPROVER_requires(TLV_BUF_OK(buf, buf_size))
+__CPROVER_requires(__CPROVER_is_fresh(buf_len, sizeof(*buf_len)))
+__CPROVER_ensures(__CPROVER_return_value == ((buf != NULL && buf_size < tlv->datap_len) ? KSI_INVALID_ARGUMENT : KSI_OK))
+__CPROVER_ensures(IMPLIES(__CPROVER_return_value == KSI_OK, *buf_len == tlv->datap_len))
+#ifdef TLV_RAW_DATA
+__CPROVER_ensures(IMPLIES(__CPROVER_return_value == KSI_OK && buf != NULL && g_tlv_k < tlv->datap_len,
+		buf[buf_size - tlv->datap_len + g_tlv_k] == tlv->datap[g_tlv_k]))
+#endif
+__CPROVER_assigns(*buf_len; buf != NULL: __CPROVER_object_upto(buf, buf_size));
+
+/* nested payload (caller-facing part; the tiling statement is in contracts/tlv_nested.h) */
+static int serializeNested(const KSI_TLV *tlv, unsigned char *buf, size_t buf_size, size_t *buf_len)
+#ifdef TLV_NESTED_GHOST
+__CPROVER_requires(tlv != NULL)      /* concrete object built by the harness (function-pointer list) */
+#else
+__CPROVER_requires(__CPROVER_is_fresh(tlv, sizeof(*tlv)))
+#endif
+__CPROVER_requires(TLV_BUF_OK(buf, buf_size))
+__CPROVER_requires(__CPROVER_is_fresh(buf_len, sizeof(*buf_len)))
+#ifdef TLV_NESTED_GHOST
+TLV_NESTED_GHOST_CLAUSES
+#endif
+__CPROVER_ensures(IMPLIES(__CPROVER_return_value == KSI_OK && buf != NULL, *buf_len <= buf_size))
+__CPROVER_assigns(*buf_len; buf != NULL: __CPROVER_object_upto(buf, buf_size) TLV_NESTED_GHOST_ASSIGNS);
 
 /* payload of one TLV, right-aligned in [buf, buf+buf_size) (or only measured when buf == NULL) */
 static int serializePayload(const KSI_TLV *tlv, unsigned char *buf, size_t buf_size, size_t *buf_len)
@@ -26,7 +61,7 @@ __CPROVER_ensures(__CPROVER_return_value == g_sp_res)
 __CPROVER_ensures(IMPLIES(__CPROVER_return_value == KSI_OK, *buf_len == g_sp_len))
 __CPROVER_ensures(IMPLIES(__CPROVER_return_value == KSI_OK && buf != NULL && g_tlv_k < *buf_len, buf[buf_size - *buf_len + g_tlv_k] == g_sp_byte))
 #endif
-__CPROVER_assigns(*buf_len; buf != NULL: __CPROVER_object_whole(buf));
+__CPROVER_assigns(*buf_len; buf != NULL: __CPROVER_object_upto(buf, buf_size));
 
 /* One element, right-aligned: [header][payload] ends at buf+buf_size.  From the property text:
  *  - a payload longer than 0xffff is refused, never written with a wrong length            (DESIGN 7-e expects this to fail)
@@ -35,7 +70,12 @@ __CPROVER_assigns(*buf_len; buf != NULL: __CPROVER_object_whole(buf));
  *  - BUFFER_OVERFLOW exactly when it does not fit; nothing outside [buf, buf+buf_size) is written (assigns + pointer checks)
  *  - the payload octets are not disturbed by writing the header */
 static int serializeTlv(const KSI_TLV *tlv, unsigned char *buf, size_t buf_size, size_t *buf_len, int opt)
+#ifdef TLV_NESTED_GHOST
+__CPROVER_requires(tlv == &g_nl_child && tlv->tag <= SPEC_TLV_MAX_TAG)
+TLV_CHILD_CLAUSES
+#else
 __CPROVER_requires(__CPROVER_is_fresh(tlv, sizeof(*tlv)) && tlv->tag <= SPEC_TLV_MAX_TAG)
+#endif
 __CPROVER_requires(TLV_BUF_OK(buf, buf_size))
 __CPROVER_requires(__CPROVER_is_fresh(buf_len, sizeof(*buf_len)))
 #ifdef TLV_NAME_OUTPUTS
@@ -55,8 +95,27 @@ __CPROVER_ensures(IMPLIES(__CPROVER_return_value == KSI_OK && buf != NULL && g_t
 #else
 /* the same contract without names for the callee's outputs: what a CALLER of serializeTlv may rely on */
 __CPROVER_ensures(IMPLIES(__CPROVER_return_value == KSI_OK && buf != NULL, *buf_len <= buf_size))
-__CPROVER_ensures(IMPLIES(__CPROVER_return_value == KSI_OK && TLV_WANTS_HDR(opt),
-		spec_tlv_payload_of_total(tlv->tag, *buf_len) <= SPEC_TLV_MAX_LEN))
+#ifdef TLV_NAME_ST   /* names for the outputs, used by the job that enforces KSI_TLV_writeBytes */
+__CPROVER_ensures(__CPROVER_return_value == g_st_res)
+__CPROVER_ensures(IMPLIES(__CPROVER_return_value == KSI_OK, *buf_len == g_st_len))
+__CPROVER_ensures(IMPLIES(__CPROVER_return_value == KSI_OK && buf != NULL && g_tlv_k < *buf_len && *buf_len <= buf_size, buf[buf_size - *buf_len + g_tlv_k] == g_st_byte2))
 #endif
-__CPROVER_assigns(*buf_len; buf != NULL: __CPROVER_object_whole(buf));
+#endif
+__CPROVER_assigns(*buf_len; buf != NULL: __CPROVER_object_upto(buf, buf_size));
+
+/* Public serializer: the element (or only its payload with KSI_TLV_OPT_NO_HEADER) moved to the START of the buffer
+ * unless KSI_TLV_OPT_NO_MOVE; every octet arrives unchanged; result code and size are those of serializeTlv. */
+int KSI_TLV_writeBytes(const KSI_TLV *tlv, unsigned char *buf, size_t buf_size, size_t *buf_len, int opt)
+__CPROVER_requires(__CPROVER_is_fresh(tlv, sizeof(*tlv)) && tlv->tag <= SPEC_TLV_MAX_TAG)
+__CPROVER_requires(TLV_BUF_OK(buf, buf_size))
+__CPROVER_requires(__CPROVER_is_fresh(buf_len, sizeof(*buf_len)))
+#ifdef TLV_NAME_ST
+__CPROVER_ensures(__CPROVER_return_value == g_st_res)
+__CPROVER_ensures(IMPLIES(__CPROVER_return_value == KSI_OK, *buf_len == g_st_len))
+__CPROVER_ensures(IMPLIES(__CPROVER_return_value != KSI_OK, *buf_len == __CPROVER_old(*buf_len)))
+__CPROVER_ensures(IMPLIES(__CPROVER_return_value == KSI_OK && buf != NULL && g_tlv_k < *buf_len,
+		*buf_len <= buf_size && buf[((opt & KSI_TLV_OPT_NO_MOVE) ? buf_size - *buf_len : 0) + g_tlv_k] == g_st_byte2))
+#endif
+__CPROVER_ensures(IMPLIES(__CPROVER_return_value == KSI_OK && buf != NULL, *buf_len <= buf_size))
+__CPROVER_assigns(*buf_len; buf != NULL: __CPROVER_object_upto(buf, buf_size));
 #endif
